@@ -113,6 +113,7 @@ def c06(repo, rep):
     X.truthy_rule(repo, rep, ["analytic"])
     X.converted_before_use(repo, rep)
     X.pure_ic_rule(repo, rep)
+    X.nodelist_order_rule(repo, rep)
 
 
 def c09(repo, rep):
@@ -225,6 +226,7 @@ def c14(repo, rep):
     with rep.keep("R4o"):
         O.r4(repo, rep)                     # a layout that follows dict order on one side only depends on insertion order
     X.labels_not_in_numpy(repo, rep)
+    X.nodelist_order_rule(repo, rep)
 
 
 def c15(repo, rep):
